@@ -56,7 +56,7 @@ def main():
             wdata = open(wpath, "rb").read()
             off = payload_offset(wdata, version)
             fh.write(json.dumps({"id": "written:" + path, "src": path, "wpath": wpath, "magic": magic_int, "ver": list(version[:2]),
-                                 "buf": list(bytearray(wdata[off:])), "tok": toks, "consumed": -1, "strict": 1,
+                                 "buf": list(bytearray(wdata[off:])), "tok": toks, "consumed": -1, "strict": 1, "writer": 1,
                                  "header": list(bytearray(wdata[:off])), "ts": ts, "size": ss}) + "\n")
             try:
                 with xd.quiet():
